@@ -20,6 +20,9 @@ for pid,txt in {
  "C14":"Script tree against the real Server over virtual connections: every path that does not reach established must end with the connection closed by the server (client observes EOF), no per-connection goroutine left, and neither callback fired.",
 }.items():
     checks[pid]=dict(level="model_checking",engine="gosim",design="4/"+pid,text=txt,technique=HS_TECH)
+checks["C08"]=dict(level="model_checking",engine="gosim",design="4/C08",
+  text="Every server script (26-symbol alphabet incl. regressions, id variants, option/scheme lists, round trips, data, garbage, disconnect, silence; depth 3 quick / 5 thorough) x 4 client configurations is executed against the real ClientChannel.EstablishSession over a virtual connection with real TLS; the call must return without panic, report established only if the server's last word was established and adopt exactly that envelope's id/nodes, echo the latest session id, send credentials only in answer to an authentication request and close on finished/failed.",
+  technique=HS_TECH)
 na_reason={}
 m={"version":1,
  "setup_cmd":"./setup.sh",
